@@ -91,3 +91,17 @@ Definition go_zero_time : go_time := -62135596800 * NSEC.     (* time.Time{}: 1 
 Definition i64_sub (a b : Z) : Z := i64_of (a - b).
 Definition i64_add (a b : Z) : Z := i64_of (a + b).
 Definition i64_mul (a b : Z) : Z := i64_of (a * b).
+(* uint64 arithmetic (wrap-around) *)
+Definition u64_add (a b : Z) : Z := wrap64 (a + b).
+Definition u64_sub (a b : Z) : Z := wrap64 (a - b).
+Definition u64_mul (a b : Z) : Z := wrap64 (a * b).
+
+(* len(s) of a Go string: bytes *)
+Definition go_len (s : string) : Z := Z.of_nat (String.length s).
+(* addr.String(): the bech32 spelling, abstract *)
+Definition Addr_String (a : go_addr) : go_addr := a.
+Definition Addr_Empty (a : go_addr) : bool := a =? go_zero_addr.
+
+(* `x, err := f(..); if err != nil { return .., Wrap(E, ..) }`: an error of f is replaced by E *)
+Definition map_err {A} (c : Z) (o : outcome A) : outcome A :=
+  match o with Err _ => Err c | _ => o end.
